@@ -32,5 +32,19 @@ CHECKS = {
           "A recording vault logs each write after it is durable in the same ordered log as plugin begins; oracle demands a durable Running write before each invocation, durable attempts before retries/next action, durable terminal state before Wait returns; concurrent pollers check that terminal statuses never regress.",
           ENGINE_NOTE, "DESIGN.md §C08"),
 }
+
+STORE_NOTE = ("Trusted base: the reference model applies the documented effect of each vault call; cosmosdb is exercised over the "
+              "package's own fake client through a verif-tagged constructor (no Cosmos engine offline).")
+CHECKS.update({
+ "C13": c("exploration", "runtime reference-model monitor: every Read compared structurally with an in-memory model after each vault operation",
+          "PRNG histories of Create/Update*/Delete on sqlite (in-memory and file-backed, incl. reopen) and cosmosdb-over-fake with hostile field values and four typed request/response flavours; after every step Read must equal the model (definition, order, status, ns timestamps, reason, attempts with typed responses and error chains); Read of unknown/deleted ids must fail.",
+          STORE_NOTE + " The cosmos fake ignores ORDER BY: actions are compared as a set there.", "DESIGN.md §C13"),
+ "C14": c("fault_enumeration", "fault injection + raw-store inspection: unencodable request at every action position, SIGKILL inside Create (file-backed sqlite) checked by a second process, duplicate creates, create/delete histories",
+          "For every action position of every explored plan a request whose MarshalJSON fails (or kills the process) is planted; afterwards either the complete plan is readable or no trace exists (Read, Exists, raw row/item counts), other plans and their raw rows are unchanged; duplicate Create fails without altering the first; Delete removes exactly the plan's rows.",
+          STORE_NOTE + " Crash = process death (SIGKILL), not power loss; process death is sqlite-only.", "DESIGN.md §C14"),
+ "C15": c("exploration", "runtime reference-filter monitor over Exists/Search/List result streams with stream-closure watchdog; Cosmos SQL text evaluated by an interpreter of the emitted fragment",
+          "After each mutation of a PRNG store, Exists for live/deleted/unknown ids, List with limits around n, Search{Running} and PRNG multi-valued filters are compared (ordered) with a reference filter over the model; every stream is drained behind a watchdog.",
+          STORE_NOTE + " For cosmosdb the status/group/order semantics are decided on the emitted query text under our reading of Cosmos SQL.", "DESIGN.md §C15"),
+})
 BUILT = set(CHECKS)
 NOT_APPLICABLE = {f"C{i:02d}": "check under construction in this round (runtime monitor designed in DESIGN.md, not yet registered)" for i in range(1, 21) if f"C{i:02d}" not in BUILT}
